@@ -117,6 +117,12 @@ def one_chain(ctx, cid, rng, idx):
         clr = cooler.Cooler(uri, **okw)
         if okw:
             c.feature("cooler-object:constructed-with-h5py-options")
+        hfile = None
+        if not okw and idx % 5 != 2 and rng.random() < 0.4:
+            # the object is built on an OPEN writable h5py handle (File or Group) instead of a path
+            hfile = h5py.File(path, "r+")
+            clr = cooler.Cooler(hfile[group] if group != "/" or rng.random() < 0.5 else hfile)
+            c.feature("cooler-object:built-on-open-writable-handle")
         obj2 = cooler.Cooler(uri)                   # a second object of the same cooler, opened before any rename
         relcase = bool(idx % 5 == 2 and not okw)
         if relcase:
@@ -214,7 +220,8 @@ def one_chain(ctx, cid, rng, idx):
                         f"side cooler with chromosome {first!r} after rename_chroms({mp}): {cooler.Cooler(side).chromnames}")
                 os.remove(side)
                 c.feature("map:same-dict-object-applied-to-two-coolers")
-            via_other = bool(not relcase and len(chain) >= 2 and rng.random() < 0.4)
+            via_other = bool(not relcase and hfile is None and len(chain) >= 2 and rng.random() < 0.4)
+            old_sel = (clr.matrix(balance=False), clr.bins(), clr.pixels()) if rng.random() < 0.5 else None
             if via_other:
                 # this step goes through the OTHER object (opened before the earlier renames, never refreshed):
                 # the map is partial - chromosomes it does not mention keep the names they have NOW in the file
@@ -229,6 +236,21 @@ def one_chain(ctx, cid, rng, idx):
             history.append(list(cur))
             if len(chain) > 1:
                 c.feature("chain:>1")
+            if old_sel is not None and not via_other:
+                # selectors obtained from this object BEFORE the rename are name-based lookups on the same object too
+                c.feature("history:selector-made-before-the-rename")
+                for nm in cur:
+                    o = snap0[orig_of[nm]]
+                    try:
+                        okq = (np.array_equal(old_sel[0].fetch(nm), o["matrix"])
+                               and old_sel[1].fetch(nm)[["start", "end"]].values.tolist() == o["bins"]
+                               and old_sel[2].fetch(nm).values.tolist() == o["pixels"])
+                    except (ValueError, KeyError) as e:
+                        okq = False
+                    if not c.check(okq, "query-by-new-name-differs:selector-made-before-the-rename",
+                                   f"a matrix/bins/pixels selector obtained from the object before rename_chroms({chain[-1]}) "
+                                   f"does not answer region {nm!r} (was {orig_of[nm]!r}) as the old name was answered"):
+                        break
             for label, obj in (("live-object", clr), ("reopened", cooler.Cooler(uri))):
                 c.feature(f"check:{label}")
                 ok = c.check(obj.chromnames == cur, f"chromnames-wrong:{label}",
@@ -278,6 +300,8 @@ def one_chain(ctx, cid, rng, idx):
             c.nontrivial(repr(bt), repr(chain), enc, symm)
         ctx.sample({"chromosomes": names, "chain": chain, "encoding": enc}, limit=5)
     os.chdir(cwd0)
+    if hfile is not None:
+        hfile.close()
     os.remove(path0)
 
 
